@@ -352,9 +352,56 @@ Print Assumptions selected_is_listed_or_default.
    isMediaTypeForLegacyPacker (harness/c14gen, go/ast); for EVERY media type the model's priority tier, packer family,
    forward version and 'to' form are what the source's clauses say *)
 Theorem media_type_tables_match_source : forall m,
-  tier_of m = src_tier m /\ family m = src_family m /\ src_consistent m = true.
+  tier_of m = src_tier m /\ family m = src_family m /\ src_consistent m = true /\ v1_only m = src_v1_only m.
 Proof. intros m. destruct m; vm_compute; repeat split. Qed.
 Print Assumptions media_type_tables_match_source.
+
+(* ------------------------------------------------------------------------------------------------------------
+   SendToDID: the connection record of (myDID, theirDID) decides.  [conn_for] / [todid_accept] / [todid_auth] are the
+   functions the correspondence runs on every send through SendToDID, with the record read from the real store before
+   and after the call. *)
+
+(* history: whatever the first send found, every later send to the same pair finds the record the first one left and
+   behaves the same — same accept list, same packing mode *)
+Theorem todid_later_sends_agree_with_the_first : forall found defaults v2msg v2msg' ep doc m,
+  let r := conn_for found defaults v2msg in
+  conn_for (Some r) defaults v2msg' = r /\
+  todid_accept ep doc (conn_for (Some r) defaults v2msg') = todid_accept ep doc r /\
+  todid_auth (conn_for (Some r) defaults v2msg') m = todid_auth r m.
+Proof. intros. repeat split. Qed.
+Print Assumptions todid_later_sends_agree_with_the_first.
+
+(* the selected media type is one of: the endpoint's accept list, the record's profiles, the document's accept list,
+   the dispatcher's default — and the document's list is consulted only when the record carries none *)
+Theorem todid_selected_from : forall ep doc r dflt,
+  let m := media_type (todid_accept ep doc r) dflt in
+  m = dflt \/ In m ep \/ (ep = [] /\ In m (cn_profiles r)) \/ (ep = [] /\ cn_profiles r = [] /\ In m doc).
+Proof.
+  intros ep doc r dflt m. subst m. unfold todid_accept. destruct ep as [|e ep].
+  - destruct (cn_profiles r) as [|p ps] eqn:E.
+    + destruct (selected_is_listed_or_default doc dflt) as [H|H]; [left; exact H|right; right; right; repeat split; exact H].
+    + destruct (selected_is_listed_or_default (p :: ps) dflt) as [H|H]; [left; exact H|right; right; left; split; [reflexivity|exact H]].
+  - destruct (selected_is_listed_or_default (e :: ep) dflt) as [H|H]; [left; exact H|right; left; exact H].
+Qed.
+Print Assumptions todid_selected_from.
+
+(* a record with profiles overrides the document: OBSERVATION (not claimed as a violation) — a first v1 send to a DID
+   never met before creates the record from the SENDER's defaults, so the destination document's accept list is not
+   consulted for that pair from then on *)
+Theorem todid_new_connection_uses_sender_defaults : forall defaults doc d ds,
+  defaults = d :: ds -> todid_accept [] doc (conn_for None defaults false) = defaults.
+Proof. intros defaults doc d ds ->. reflexivity. Qed.
+Print Assumptions todid_new_connection_uses_sender_defaults.
+
+(* the sender key is dropped (anoncrypt) only when the record says the own peer DID travels with the message and the
+   selected profile is not one of the four v1 profiles SendToDID names *)
+Theorem todid_anoncrypt_only_when_sharing_peer_did : forall r m,
+  todid_auth r m = false <-> cn_peer_initial r = true /\ v1_only m = false.
+Proof.
+  intros r m. unfold todid_auth. destruct (cn_peer_initial r), (v1_only m); cbn; split; intros H; try discriminate; try (split; reflexivity);
+    destruct H; discriminate.
+Qed.
+Print Assumptions todid_anoncrypt_only_when_sharing_peer_did.
 
 Example media_type_nonvacuous :
   media_type [M_Other; M_RFC19; M_AIP2RFC587; M_Indy; M_V2EncV1Plain] M_DIDCommV2 = M_V2EncV1Plain /\
